@@ -543,7 +543,7 @@ class SArr:
 
     def any(self, axis=None): return any(self, axis)
     def all(self, axis=None): return all(self, axis)
-    def sum(self, axis=None): return sum(self, axis)
+    def sum(self, axis=None, keepdims=False): return sum(self, axis, keepdims=keepdims)
     def min(self, axis=None): return min(self, axis)
     def max(self, axis=None): return max(self, axis)
     def mean(self, axis=None): return mean(self, axis)
@@ -1384,6 +1384,18 @@ def _tb(v):
     return bool(v)
 
 
+def isinf(a):
+    def f(v):
+        if isinstance(v, Sym):
+            return False          # symbolic reals are finite (stated assumption)
+        return isinstance(v, float) and v in (float("inf"), float("-inf"))
+    return _unary(a, f, bool_)
+
+
+def isfinite(a):
+    return logical_not(logical_or(isnan(a), isinf(a)))
+
+
 def isnan(a):
     def f(v):
         if isinstance(v, Sym):
@@ -1554,9 +1566,13 @@ def _reduce(a, axis, f, init=None, dt=None, valid_neutral=None):
     return SArr.new(out, rest, a.n if axis != 0 else None, dt)
 
 
-def sum(a, axis=None, dtype=None):  # noqa: A001
+def sum(a, axis=None, dtype=None, keepdims=False):  # noqa: A001
     a = asarray(a)
-    return _reduce(a, axis, _add, init=(0.0 if a.dtype.kind == "f" else 0), valid_neutral=(0.0 if a.dtype.kind == "f" else 0))
+    r = _reduce(a, axis, _add, init=(0.0 if a.dtype.kind == "f" else 0), valid_neutral=(0.0 if a.dtype.kind == "f" else 0))
+    if keepdims and isinstance(r, SArr) and axis is not None and not isinstance(axis, (tuple, list)):
+        ax = axis if axis >= 0 else axis + a.ndim
+        r = SArr(r.buf, r.offs, r.shape_cap[:ax] + (1,) + r.shape_cap[ax:], r.n, r.dtype)
+    return r
 
 
 def prod(a, axis=None):
